@@ -582,4 +582,67 @@ theorem records_to_ljh3_file (recs : List Rec) (hdr : C05.Bytes)
     · rw [hparse, List.map_map]; rfl
     · rw [hlen', List.map_map]; rfl
 
+/-! ### any writer history (START / PAUSE / UNPAUSE / flushes / STOP around the batches) -/
+
+/-- the records published while the writer is active and unpaused, whatever the writer's own filter -/
+def publishedWhileWriting {ρ} (F : C05.Fmt ρ) (c : C05.Ctl) (ops : List (C05.Op ρ)) : List ρ :=
+  C05.accepted { F with accept := fun _ => true } c ops
+
+theorem taken_all {ρ} (F : C05.Fmt ρ) (b : List ρ) (h : ∀ r ∈ b, F.accept r = true) : C05.taken F b = b := by
+  unfold C05.taken
+  split
+  · exact takeWhile_all F.accept b h
+  · exact List.filter_eq_self.mpr h
+
+/-- when the writer's filter passes every published record, what it accepts is exactly what was published
+while writing — for ANY history of START, PAUSE, UNPAUSE, flushes, STOP -/
+theorem accepted_eq_published {ρ} (F : C05.Fmt ρ) : ∀ (ops : List (C05.Op ρ)) (c : C05.Ctl),
+    (∀ b, C05.Op.publish b ∈ ops → ∀ r ∈ b, F.accept r = true) →
+    C05.accepted F c ops = publishedWhileWriting F c ops
+  | [], _, _ => rfl
+  | op :: ops, c, h => by
+    have ih := accepted_eq_published F ops (C05.ctlStep c op) (fun b hb => h b (by simp [hb]))
+    unfold publishedWhileWriting at ih ⊢
+    simp only [C05.accepted]
+    rw [ih]
+    congr 1
+    cases op with
+    | publish b =>
+      simp only [C05.accStep]
+      split
+      · rw [taken_all F b (h b (by simp))]
+        exact (taken_all { F with accept := fun _ => true } b (fun _ _ => rfl)).symm
+      · rfl
+    | _ => rfl
+
+/-- **The LJH 2.2 length filter never drops a pipeline record, under any write-control history.**  Channel
+`j` (not in edge-multi mode) of any source processes any history of blocks and group-trigger requests; the
+channel's LJH 2.2 writer goes through ANY history `wops` of START, PAUSE, UNPAUSE, flushes and STOP in which
+every published batch consists of records of that run.  If the history ends stopped and a non-empty batch
+got through, the file body, read back with the documented layout, is exactly the records published while
+writing was active and unpaused, in order. -/
+theorem pipeline_to_ljh22_file_any_history (zts : List (List (Int × Int))) (j : Nat)
+    (ops : List Op) (s : Src) (c : Chan) (outs : List Out)
+    (hk : ∀ o ∈ ops, KeepsSettings o) (hc : s.chans[j]? = some c) (hem : c.ts.edgeMulti = false)
+    (hrun : runOps zts s ops = some outs)
+    (p : C05.Params) (hdr : C05.Bytes) (hp : p.nsamp = c.nsamp)
+    (wops : List (C05.Op C05.W22))
+    (hpub : ∀ b, C05.Op.publish b ∈ wops → ∀ w ∈ b, ∃ r ∈ chanRecs j outs, w = toW22 r)
+    (hstop : (C05.run (C05.fmt22 p hdr) {} wops).ctl.phase = .stopped)
+    (ht : C05.touched (ρ := C05.W22) {} wops = true) :
+    ∃ file, C05.fileOf (C05.run (C05.fmt22 p hdr) {} wops) = some file ∧ file.take hdr.length = hdr ∧
+      C05.parseBody (C05.parseLJH22 p.nsamp.toNat 2) (file.drop hdr.length) =
+        some ((publishedWhileWriting (C05.fmt22 p hdr) {} wops).map (C05.expect22 p.subdiv p.suboff)) ∧
+      file.length = hdr.length + (publishedWhileWriting (C05.fmt22 p hdr) {} wops).length * (16 + p.nsamp.toNat * 2) := by
+  have hlenall := runOps_chanRecs_len zts j ops s c outs hk hc hem hrun
+  have hacc : ∀ b, C05.Op.publish b ∈ wops → ∀ w ∈ b, (C05.fmt22 p hdr).accept w = true := by
+    intro b hb w hw
+    obtain ⟨r, hr, rfl⟩ := hpub b hb w hw
+    have := (hlenall r hr).1
+    simp only [C05.fmt22, toW22, beq_iff_eq]
+    omega
+  obtain ⟨file, hf, htake, hparse, hlen⟩ := C05.C05_body_parses_back_ljh22 p hdr wops hstop ht
+  rw [accepted_eq_published (C05.fmt22 p hdr) wops {} hacc] at hparse hlen
+  exact ⟨file, hf, htake, hparse, hlen⟩
+
 end DastardV.Compose
